@@ -4,7 +4,7 @@ From TM Require Import Base.Prelude Base.PyList C04.Model C04.Spec C04.Proofs C0
 
 (* For every batch of examples, every network of affine and element-wise layers, every reference
    set and target inside the scope (x is the one-hot encoding of a sequence, at least one
-   reference, consistent band-free traces): the model's outcome - C04.Model.bw, projection, mean,
+   reference, every trace the forward pass of its pair with no unit between 1e-7 and the 1e-6 switch): the model's outcome - C04.Model.bw, projection, mean,
    mask - satisfies the C05 spec: its multipliers are, entry by entry, the pointwise rescale-rule
    evaluation; hypothetical attributions are sum_c (e_k - ref)[c] * m[c] averaged over the
    references; the attribution is that value times x; and for an affine model the attribution of
@@ -19,13 +19,15 @@ Theorem c05_rescale_rule_checked : forall exs,
 Proof. exact spec05_on_model_b. Qed.
 Print Assumptions c05_rescale_rule_checked.
 
-(* the statements behind it over any field: bw = pointwise rule on every pool-free trace *)
+(* the statement behind it over any field: bw = pointwise rule on every trace in scope (chain5: forward
+   pass of the pair, no max-pool, no unit between lo = 1e-7 and the code's 1e-6 switch); it needs that
+   the spec's "coincide" test lies below the code's switch *)
 Theorem c05_bw_is_rule : forall K : ops,
   Field_theory.field_theory (f0 K) (f1 K) (fadd K) (fmul K) (fsub K) (fopp K) (fdiv K) (finv K) eq ->
-  small6 K (f0 K) = true ->
-  (forall a b : K, feqb K a b = true -> a = b) -> (forall a : K, feqb K a a = true) ->
+  (forall d : K, small7 K d = true -> small6 K d = true) ->
+  (forall a b : K, feqb K a b = true -> a = b) ->
   forall (tr : list (layer K)) (x r yx yr t : list K),
-  chain K tr x r yx yr -> has_pool K tr = false ->
+  chain5 K tr x r yx yr ->
   forall i, nth i (bw K tr t) (f0 K) = nth i (rule_bw K tr t) (f0 K).
 Proof. exact bw_is_rule. Qed.
 Print Assumptions c05_bw_is_rule.
@@ -61,6 +63,18 @@ Definition ex_calls : list ecall :=
   [E 2 3 1 0 [i1; z0; z0;  z0; i1; i1] [P [z0; i1; z0;  i1; z0; i1] a_net z0 z0;
                                           P [z0; z0; i1;  i1; i1; z0] a_net z0 z0];
    E 2 3 1 0 [i1; z0; z0;  z0; i1; i1] [P [z0; i1; z0;  i1; z0; i1] r_net z0 z0]].
+(* a unit whose two pre-activations are +2^-40 and -2^-41 (|delta_in| ~ 1.4e-12): the derivative 1 is
+   demanded, not the secant 2/3 *)
+Definition n_net : list (nlayer Qc) :=
+  [NAffine [[dy 1 40; dy (-1) 41; z0; z0]] [z0]; NActF ReLU; NAffine [[dy 3 0]] [z0]].
+Definition near_calls : list ecall :=
+  [E 2 2 1 0 [i1; z0;  z0; i1] [P [z0; i1;  i1; z0] n_net z0 z0]].
+Example c05_near_kink :
+  forallb scope05b near_calls = true /\
+  map (fun o => o_mult o) (match model (C false near_calls) with Ok (l, _) => l | Err => [] end) =
+  [[[dy 3 40; dy (-3) 41; z0; z0]]].
+Proof. split; vm_compute; reflexivity. Qed.
+
 Example c05_scope_inhabited :
   forallb scope05b ex_calls = true /\ spec_ok05 (C false ex_calls) (model (C false ex_calls)) = true.
 Proof. split; vm_compute; reflexivity. Qed.
